@@ -1,6 +1,143 @@
-(* Corr/SamCorr.v — correspondence entry points. *)
+(* Corr/SamCorr.v — correspondence entry points for package formats/sam:
+   decode a case value, run the model, encode the observable exactly as
+   harness/sam.go encodes the implementation's.
+
+   record  = [qname flag rname pos mapq cigar rnext pnext tlen seq qual tags]
+   tags    = [[name [type value]] ...] sorted by name;
+             type/value: [i0 i<byte>] A | [i1 i<int>] i | [i2 x<canonical float>] f
+                         | [i3 x<string>] Z | [i4 x<bytes>] H
+   item    = [i0 [i0 header]] | [i0 [i1 record]] | [i1]                       *)
 From Coq Require Import String.
 From Bio Require Import Base.
+From Bio.gen Require Import FlagGen.
 From Bio.Model Require Import Sam.
+From Bio.Spec Require Import SamSpec.
 
-Definition corr_sam : list (string * (val -> val)) := [].
+Definition v_tagval (v : tagval) : val :=
+  match v with
+  | TA b => VL [VI 0; VI (Z.of_N b)]
+  | TI z => VL [VI 1; VI z]
+  | TF x => VL [VI 2; VB x]
+  | TZ s => VL [VI 3; VB s]
+  | TH h => VL [VI 4; VB h]
+  end.
+
+(* Go side: keys of the map sorted with sort.Strings *)
+Fixpoint insert_tag (t : bytes * tagval) (l : tagmap) : tagmap :=
+  match l with
+  | [] => [t]
+  | u :: r => match bcompare (fst t) (fst u) with
+              | Gt => u :: insert_tag t r
+              | _ => t :: l
+              end
+  end.
+Definition sort_tags (m : tagmap) : tagmap := fold_right insert_tag [] m.
+
+Definition v_tags (m : tagmap) : val :=
+  VL (map (fun t => VL [VB (fst t); v_tagval (snd t)]) (sort_tags m)).
+
+Definition v_sam (r : sam) : val :=
+  VL [ VB (s_qname r); VI (s_flag r); VB (s_rname r); VI (s_pos r); VI (s_mapq r);
+       VB (s_cigar r); VB (s_rnext r); VI (s_pnext r); VI (s_tlen r);
+       VB (s_seq r); VB (s_qual r); v_tags (s_tags r) ].
+
+Definition as_tagval (v : val) : option tagval :=
+  match v with
+  | VL [VI 0%Z; VI b] => Some (TA (Z.to_N b))
+  | VL [VI 1%Z; VI z] => Some (TI z)
+  | VL [VI 2%Z; VB x] => Some (TF x)
+  | VL [VI 3%Z; VB s] => Some (TZ s)
+  | VL [VI 4%Z; VB h] => Some (TH h)
+  | _ => None
+  end.
+
+Definition as_tag (v : val) : option (bytes * tagval) :=
+  match v with
+  | VL [VB name; tv] => match as_tagval tv with Some x => Some (name, x) | None => None end
+  | _ => None
+  end.
+
+Definition as_sam (v : val) : option sam :=
+  match v with
+  | VL [VB qn; VI fl; VB rn; VI po; VI mq; VB ci; VB rx; VI pn; VI tl; VB sq; VB ql; VL ts] =>
+    match all_some (map as_tag ts) with
+    | Some m => Some {| s_qname := qn; s_flag := fl; s_rname := rn; s_pos := po; s_mapq := mq;
+                        s_cigar := ci; s_rnext := rx; s_pnext := pn; s_tlen := tl;
+                        s_seq := sq; s_qual := ql; s_tags := m |}
+    | None => None
+    end
+  | _ => None
+  end.
+
+Definition v_entry (e : entry) : val :=
+  match e with Hdr h => VL [VI 0; VB h] | Aln r => VL [VI 1; v_sam r] end.
+
+(* sam_write: [record oracle] -> [[chunk ...] marshaltext] *)
+Definition c_sam_write (v : val) : val :=
+  match v with
+  | VL [rv; ov] =>
+    match as_sam rv, as_foracle ov with
+    | Some r, Some o =>
+      VL [VL (map VB (write_calls o r)); v_outcome VB (marshal_text o r)]
+    | _, _ => v_bad
+    end
+  | _ => v_bad
+  end.
+
+Definition c_sam_readhdr (v : val) : val :=
+  match v with
+  | VL [VB s; tv; ov] =>
+    match as_term tv, as_foracle ov with
+    | Some t, Some o => v_items v_entry (reader_header o s t)
+    | _, _ => v_bad
+    end
+  | _ => v_bad
+  end.
+
+Definition c_sam_read (v : val) : val :=
+  match v with
+  | VL [VB s; tv; ov] =>
+    match as_term tv, as_foracle ov with
+    | Some t, Some o => v_items v_sam (reader o s t)
+    | _, _ => v_bad
+    end
+  | _ => v_bad
+  end.
+
+(* sam_file: [[header ...] [record ...] eol oracle] -> [text items-of-ReaderHeader items-of-Reader] *)
+Definition c_sam_file (v : val) : val :=
+  match v with
+  | VL [hv; VL rvs; VB eol; ov] =>
+    match as_bytes_list hv, all_some (map as_sam rvs), as_foracle ov with
+    | Some hs, Some rs, Some o =>
+      let text := file_text o eol hs rs in
+      VL [VB text; v_items v_entry (reader_header o text TEOF); v_items v_sam (reader o text TEOF)]
+    | _, _, _ => v_bad
+    end
+  | _ => v_bad
+  end.
+
+(* flags: the accessors are looked up by name in the lists generated from
+   flag.go, in the order of the specification. *)
+Definition lookup_name {A} (n : string) (l : list (string * A)) : option A :=
+  match find (fun p => String.eqb (fst p) n) l with Some p => Some (snd p) | None => None end.
+
+Definition c_sam_flag_get (v : val) : val :=
+  match v with
+  | VI f => VL (map (fun n => match lookup_name n flag_getters with
+                              | Some g => v_bool (g f) | None => VI 99 end) flag_spec_names)
+  | _ => v_bad
+  end.
+
+Definition c_sam_flag_set (v : val) : val :=
+  match v with
+  | VL [VI f; VI b] =>
+    VL (map (fun n => match lookup_name n flag_setters with
+                      | Some s => VI (s f (negb (Z.eqb b 0))) | None => VI 99 end) flag_spec_names)
+  | _ => v_bad
+  end.
+
+Definition corr_sam : list (string * (val -> val)) :=
+  [ ("sam_write"%string, c_sam_write); ("sam_readhdr"%string, c_sam_readhdr);
+    ("sam_read"%string, c_sam_read); ("sam_file"%string, c_sam_file);
+    ("sam_flag_get"%string, c_sam_flag_get); ("sam_flag_set"%string, c_sam_flag_set) ].
